@@ -62,8 +62,8 @@ const NAMES: &[(&str, &str)] = &[("n1", "a"), ("n2", "b"), ("n3", "c")];
 const INTS: &[&str] = &["0", "-1", "123", "2147483647"];
 const FLOATS: &[&str] = &["1.5", "-0.5e3", "1e10", "0.0"];
 const STRS: &[&str] = &["\"s\"", "\"\"", "\"a\\nb\"", "\"q\\\"x\"", "\"é\"", "\"  lead\"", "\"\\u0007\"", "\"tab\\there\"",
-    "\"0123456789012345678901234567890123456789012345678901234567890123456789-long\"", "\"back\\\\slash\"", "\"ends with quote\\\"\""];
-const BSTRS: &[&str] = &["\"\"\"b\"\"\"", "\"\"\"\n  multi\n    line\n  \"\"\"", "\"\"\" x\\\"\"\"y \"\"\"", "\"\"\"\"\"\"", "\"\"\"a\n\nb\"\"\"", "\"\"\"é\\n\"\"\""];
+    "\"0123456789012345678901234567890123456789012345678901234567890123456789-long\"", "\"back\\\\slash\"", "\"ends with quote\\\"\"", "\"a\\n  \\nb\"", "\"a\\n\\t\\nb\"", "\"line  \\n  indented\\nback\"", "\"\\ttab first\\nx\"", "\"x\\n\\ny\""];
+const BSTRS: &[&str] = &["\"\"\"b\"\"\"", "\"\"\"\n  multi\n    line\n  \"\"\"", "\"\"\" x\\\"\"\"y \"\"\"", "\"\"\"\"\"\"", "\"\"\"a\n\nb\"\"\"", "\"\"\"é\\n\"\"\"", "\"\"\"a\n  \nb\"\"\"", "\"\"\"\n    a\n      \n    \t\n    b\n    \"\"\"", "\"\"\"x  \n y\n\"\"\""];
 
 pub fn render(toks: &[String], rng: &mut Rng) -> String {
     let mut out = String::new();
